@@ -1,4 +1,4 @@
 Require Import ExtrOcamlBasic.
-From Eupsv Require Import Base.Base Model.Rx Model.Cond Model.Args Model.Legacy Model.Blocks.
+From Eupsv Require Import Base.Base Model.Rx Model.Cond Model.Args Model.Legacy Model.Blocks Model.TableSpec.
 Extraction "model.ml" keep_types tokenize eval_value eval_cond split_args mk_action classify
-  rewrite split_lines read_text select table_actions.
+  rewrite split_lines read_text select table_actions args_class.
